@@ -1,7 +1,7 @@
 (* Bus/T_C06.v -- C06: dead-lettering: bounded attempts, forwarded exactly once. *)
 From Coq Require Import Permutation.
 From MB Require Import Base.
-From MB.Bus Require Import State Ops Step Defs L06_Lists L06_Rel L06_Step L06_DL.
+From MB.Bus Require Import State Ops Step Defs L06_Lists L06_Rel L06_Step L06_DL L06_Legal T_Inv.
 Local Open Scope string_scope.
 Open Scope list_scope.
 Open Scope Z_scope.
@@ -145,7 +145,62 @@ Theorem dead_letter_only_when_due st now o d d' :
    | Job JDeadLetterSweep _ _ chosen _ _ _ => mem_id (d_id d) chosen = true /\ d_attempt_at d <= now
    | _ => False
    end).
-Admitted.
+Proof.
+  intros Hu Hl Hd Hc Hd' Hi Hc' Hacked.
+  pose proof (step_compl st now o d d' Hu Hd Hc Hd' Hi Hc') as W.
+  destruct Hu as (Hut&Hus&Hum&Hud&Hun).
+  assert (Hu : ids_unique st) by (repeat split; assumption).
+  destruct o; unfold why in W; try contradiction.
+  - (* Ack *)
+    destruct ids as [ids|]; [|contradiction].
+    cbn [acked_or_seeked] in Hacked. congruence.
+  - (* Pull *)
+    destruct W as (s&V&M&FS&c&Hcin&Hcid&Hdue).
+    pose proof (pull_legal _ _ _ _ _ _ _ _ _ s Hl V M FS) as SL.
+    apply in_flat_map_opt in Hcin. destruct Hcin as (j&Hj&Hg).
+    apply find_id_some in Hg. destruct Hg as [Hcd Hcj].
+    assert (c = d) by (apply (nodup_key_inj d_id (dels st)); auto). subst c.
+    subst j.
+    pose proof (selection_eligible st s now max returned others d Hu SL Hd Hj) as El.
+    unfold eligible in El.
+    repeat (apply andb_true_iff in El; destruct El as [El ?]).
+    apply N.eqb_eq in El.
+    split; [|split; [apply Z.ltb_lt; assumption|split; [|apply Z.leb_le; assumption]]].
+    + unfold dl_due. rewrite El. rewrite (find_live_sub_get st name s Hu FS). exact Hdue.
+    + unfold sub_of_name. rewrite FS. cbn [option_map]. congruence.
+  - (* SeekTime *)
+    exfalso. destruct W as (s&FS&x&Hx&Hxi&Hxs).
+    assert (x = d) by (apply (nodup_key_inj d_id (dels st)); auto). subst x.
+    cbn [acked_or_seeked] in Hacked. unfold sub_of_name in Hacked. rewrite FS in Hacked.
+    cbn [option_map] in Hacked. rewrite Hxs, N.eqb_refl in Hacked. discriminate.
+  - (* SeekSnap *)
+    exfalso. destruct W as (s&FS&x&Hx&Hxi&Hxs).
+    assert (x = d) by (apply (nodup_key_inj d_id (dels st)); auto). subst x.
+    cbn [acked_or_seeked] in Hacked. unfold sub_of_name in Hacked. rewrite FS in Hacked.
+    cbn [option_map] in Hacked. rewrite Hxs, N.eqb_refl in Hacked. discriminate.
+  - (* StreamAckNack *)
+    cbn [acked_or_seeked] in Hacked.
+    destruct W as [W|(c&s&Hcin&Hcid&Hs&Hdue)]; [congruence|].
+    apply filter_In in Hcin. destruct Hcin as [Hcin Hp].
+    unfold do_ack in Hcin. cbn [fst set_dels dels] in Hcin.
+    apply in_upd_where in Hcin. destruct Hcin as (x&Hx&Ec).
+    assert (Hxid : d_id x = d_id d).
+    { rewrite <- Hcid, Ec. destruct (ack_pred acks x); reflexivity. }
+    assert (x = d) by (apply (nodup_key_inj d_id (dels st)); auto). subst x.
+    assert (Hap : ack_pred acks d = false).
+    { unfold ack_pred. rewrite Hacked. reflexivity. }
+    rewrite Hap in Ec. subst c.
+    repeat (apply andb_true_iff in Hp; destruct Hp as [Hp ?]).
+    split; [|split; [apply Z.ltb_lt; assumption|exact Hp]].
+    unfold dl_due, get_sub. rewrite Hs. exact Hdue.
+  - (* Job *)
+    destruct j; try contradiction. destruct failed; [contradiction|].
+    apply (proj1 (in_sort_ids _ _)) in W.
+    destruct (sweep_legal _ _ _ _ _ _ _ Hl) as [CL _].
+    destruct (sweep_due st now min_age max chosen d Hu CL Hd W) as ((s&Hs&Hdue)&_&Hexp&Hat).
+    split; [|split; [exact Hexp|split; [apply mem_id_In; exact W|exact Hat]]].
+    unfold dl_due. rewrite Hs. exact Hdue.
+Qed.
 
 (* ---- bounded attempts ---- *)
 (* with a full dead-letter policy of N attempts a pull hands a delivery out only while
@@ -155,7 +210,19 @@ Theorem attempts_bounded st now name max returned others w fz fr p s :
   find_live_sub st name = Some s -> full_dl s = true ->
   In p (pulled_of (answer st now (Pull name max returned others w fz fr))) ->
   p_attempt p <= max_attempts_of s.
-Admitted.
+Proof.
+  intros Hu Hl FS FD Hp. unfold answer in Hp. cbn [step] in Hp.
+  destruct (negb (valid_sub_name name)); [cbn in Hp; contradiction|].
+  destruct (max <? 1); [cbn in Hp; contradiction|].
+  rewrite FS in Hp. cbv zeta in Hp.
+  match type of Hp with context [apply_results ?a ?b ?c ?d ?e ?f ?g ?h ?i ?j ?k] =>
+    destruct (apply_results a b c d e f g h i j k) as [[[[st1 fr1] ps] wk] n] eqn:E end.
+  cbn [r_resp done pulled_of] in Hp.
+  apply (apply_results_rel (fun _ => False)) in E. destruct E as (_&_&_&P).
+  destruct (P p Hp) as (c&_&Hdue&Hatt&_).
+  unfold due_sub in Hdue. rewrite FD in Hdue. cbn [andb] in Hdue.
+  apply Z.leb_gt in Hdue. lia.
+Qed.
 
 (* the sweep dead-letters exactly what it chose, and only due deliveries are choosable *)
 Theorem sweep_fires st now mn mx chosen w fr d :
@@ -164,7 +231,19 @@ Theorem sweep_fires st now mn mx chosen w fr d :
   dl_due st d = true /\ d_completed d = None /\ now < d_expires d /\ d_attempt_at d <= now /\
   exists d', In d' (dels (post st now (Job JDeadLetterSweep mn mx chosen false w fr))) /\
              d_id d' = d_id d /\ d_completed d' = Some w.
-Admitted.
+Proof.
+  intros Hu Hl Hd Hm. apply mem_id_In in Hm.
+  destruct (sweep_legal _ _ _ _ _ _ _ Hl) as [CL SN].
+  destruct (sweep_due st now mn mx chosen d Hu CL Hd Hm) as ((s&Hs&Hdue)&Hc&Hexp&Hat).
+  split; [unfold dl_due; rewrite Hs; exact Hdue|].
+  split; [exact Hc|split; [exact Hexp|split; [exact Hat|]]].
+  rewrite sweep_post.
+  destruct (sweep_each st (sort_ids chosen) w fr) as [[[st1 fr1] w1] n1] eqn:E.
+  cbn [snd] in SN. subst n1. cbn [fst].
+  destruct (sweep_each_completes w _ _ _ _ _ _ E (d_id d)) as (x'&H1&H2&H3).
+  - left. apply in_sort_ids. exact Hm.
+  - exists x'. auto.
+Qed.
 
 (* ---- at most once over histories ---- *)
 (* the event: this step retires the delivery by dead-lettering *)
@@ -172,6 +251,80 @@ Definition dl_event (st : state) (now : time) (o : op) (i : id) : Prop :=
   exists d d', In d (dels st) /\ d_id d = i /\ d_completed d = None /\
                In d' (dels (post st now o)) /\ d_id d' = i /\ d_completed d' <> None /\
                acked_or_seeked st o d = false.
+
+(* ---- invariants along a history ---- *)
+Section AtMostOnce.
+  Variables (i sid : id).
+  (* the delivery [i], while it exists, belongs to subscription [sid] ... *)
+  Definition Jsub (s : state) : Prop := forall d, In d (dels s) -> d_id d = i -> d_sub d = sid.
+  (* ... and is completed *)
+  Definition Kdone (s : state) : Prop := forall d, In d (dels s) -> d_id d = i -> d_completed d <> None.
+
+  Lemma step_Jsub st now o : Jsub st -> ~ In i (op_fresh_dels o) -> Jsub (post st now o).
+  Proof.
+    intros J NF d' Hd' Hi. destruct (step_stays st now o d' Hd') as [(d&H1&H2&H3&_)|F].
+    - rewrite <- H3. apply J; auto. congruence.
+    - exfalso. apply NF. rewrite <- Hi. exact F.
+  Qed.
+
+  Lemma step_Kdone st now o :
+    Jsub st -> Kdone st -> ~ In i (op_fresh_dels o) -> is_seek_of st o sid = false ->
+    Kdone (post st now o).
+  Proof.
+    intros J K NF NS d' Hd' Hi. destruct (step_stays st now o d' Hd') as [(d&H1&H2&H3&H4)|F].
+    - assert (Hdi : d_id d = i) by congruence.
+      apply H4; [apply K; auto|]. rewrite (J d H1 Hdi). exact NS.
+    - exfalso. apply NF. rewrite <- Hi. exact F.
+  Qed.
+
+  Lemma trace_split : forall h st pre s now o suf,
+    trace st h = pre ++ (s, now, o) :: suf -> exists hs, suf = trace (post s now o) hs.
+  Proof.
+    induction h as [|[n o0] r IH]; intros st pre s now o suf; cbn [trace].
+    - intros H. exfalso. exact (app_cons_not_nil _ _ _ H).
+    - destruct pre as [|x pre]; cbn [app]; intros H; inversion H; subst.
+      + exists r. reflexivity.
+      + eapply IH. eassumption.
+  Qed.
+
+  Lemma trace_inv : forall h st,
+    ids_unique st -> Jsub st -> all_legal st h ->
+    (forall s now o, In (s, now, o) (trace st h) -> ~ In i (op_fresh_dels o)) ->
+    forall s now o, In (s, now, o) (trace st h) -> ids_unique s /\ Jsub s.
+  Proof.
+    induction h as [|[n o0] r IH]; intros st Hu J Hl NF s now o; cbn [trace]; [intros []|].
+    intros [E|Hin].
+    - inversion E; subst. auto.
+    - assert (Hl0 : legal st n o0) by (apply Hl; cbn [trace]; left; reflexivity).
+      assert (NF0 : ~ In i (op_fresh_dels o0)) by (apply (NF st n o0); cbn [trace]; left; reflexivity).
+      apply (IH (post st n o0)) with (now := now) (o := o); auto.
+      + apply step_ids_unique; assumption.
+      + apply step_Jsub; assumption.
+      + intros s' n' o' H'. apply Hl. cbn [trace]. right; exact H'.
+      + intros s' n' o' H'. apply (NF s' n' o'). cbn [trace]. right; exact H'.
+  Qed.
+
+  Lemma trace_done : forall h st,
+    ids_unique st -> Jsub st -> Kdone st -> all_legal st h ->
+    (forall s now o, In (s, now, o) (trace st h) -> ~ In i (op_fresh_dels o)) ->
+    (forall s now o, In (s, now, o) (trace st h) -> is_seek_of s o sid = false) ->
+    forall s now o, In (s, now, o) (trace st h) -> Kdone s.
+  Proof.
+    induction h as [|[n o0] r IH]; intros st Hu J K Hl NF NS s now o; cbn [trace]; [intros []|].
+    intros [E|Hin].
+    - inversion E; subst. auto.
+    - assert (Hl0 : legal st n o0) by (apply Hl; cbn [trace]; left; reflexivity).
+      assert (NF0 : ~ In i (op_fresh_dels o0)) by (apply (NF st n o0); cbn [trace]; left; reflexivity).
+      assert (NS0 : is_seek_of st o0 sid = false) by (apply (NS st n o0); cbn [trace]; left; reflexivity).
+      apply (IH (post st n o0)) with (now := now) (o := o); auto.
+      + apply step_ids_unique; assumption.
+      + apply step_Jsub; assumption.
+      + apply step_Kdone; assumption.
+      + intros s' n' o' H'. apply Hl. cbn [trace]. right; exact H'.
+      + intros s' n' o' H'. apply (NF s' n' o'). cbn [trace]. right; exact H'.
+      + intros s' n' o' H'. apply (NS s' n' o'). cbn [trace]. right; exact H'.
+  Qed.
+End AtMostOnce.
 
 (* In a legal history without a seek on the delivery's subscription the event happens at
    most once per delivery: never forwarded twice, never after it was acknowledged. *)
@@ -183,4 +336,35 @@ Theorem C06_at_most_once h : forall st i sid,
   forall h1 s1 now1 o1 h2 s2 now2 o2 h3,
     trace st h = h1 ++ (s1, now1, o1) :: h2 ++ (s2, now2, o2) :: h3 ->
     dl_event s1 now1 o1 i -> ~ dl_event s2 now2 o2 i.
-Admitted.
+Proof.
+  intros st i sid Hu Hl J NS NF h1 s1 now1 o1 h2 s2 now2 o2 h3 Htr Ev1 Ev2.
+  assert (In1 : In (s1, now1, o1) (trace st h)).
+  { rewrite Htr. apply in_or_app. right. left. reflexivity. }
+  assert (Suf : forall x, In x (h2 ++ (s2, now2, o2) :: h3) -> In x (trace st h)).
+  { intros x Hx. rewrite Htr. apply in_or_app. right. right. exact Hx. }
+  destruct (trace_inv i sid h st Hu J Hl NF s1 now1 o1 In1) as [Hu1 J1].
+  pose proof (Hl _ _ _ In1) as Hl1.
+  pose proof (step_ids_unique s1 now1 o1 Hu1 Hl1) as Hup.
+  pose proof (step_Jsub i sid s1 now1 o1 J1 (NF _ _ _ In1)) as Jp.
+  assert (Kp : Kdone i (post s1 now1 o1)).
+  { destruct Ev1 as (d&d'&_&_&_&Hd'&Hi'&Hc'&_).
+    intros x Hx Hxi. destruct Hup as (_&_&_&Hud&_).
+    assert (x = d') by (apply (nodup_key_inj d_id (dels (post s1 now1 o1))); auto; congruence).
+    subst x. exact Hc'. }
+  destruct (trace_split h st h1 s1 now1 o1 _ Htr) as [hs Ehs].
+  assert (K2 : Kdone i s2).
+  { apply (trace_done i sid hs (post s1 now1 o1)) with (now := now2) (o := o2); auto.
+    - intros s n o Hin. apply Hl. apply Suf. rewrite Ehs. exact Hin.
+    - intros s n o Hin. apply (NF s n o). apply Suf. rewrite Ehs. exact Hin.
+    - intros s n o Hin. apply (NS s n o). apply Suf. rewrite Ehs. exact Hin.
+    - rewrite <- Ehs. apply in_or_app. right. left. reflexivity. }
+  destruct Ev2 as (d&d'&Hd&Hi&Hc&_).
+  exact (K2 d Hd Hi Hc).
+Qed.
+
+Print Assumptions dl_exactly.
+Print Assumptions dl_forwards.
+Print Assumptions dead_letter_only_when_due.
+Print Assumptions attempts_bounded.
+Print Assumptions sweep_fires.
+Print Assumptions C06_at_most_once.
